@@ -124,8 +124,9 @@ PROPS = {
         rule=("rapid sequences over all constructors; values from hx.JSONValue (null, bool, special and random finite floats, special and random strings, arrays, objects, depth<=2) and Go-native numbers for local updates. "
               "Non-trivial: sequence containing at least one value whose JSON type differs from the format's. Distinct by (constructor, sequence)."),
         assumptions=["numbers supplied are finite (NaN/Inf only occur as strings)", "typed getters are only called on readable characteristics"],
-        essential_classes=["same-composite-twice", "format:string", "format:float", "format:uint8", "format:bool", "format:tlv8", "format:int32", "write-only", "bounds-redeclared"],
+        essential_classes=["same-composite-twice", "format:string", "format:float", "format:uint8", "format:bool", "format:tlv8", "format:int32", "write-only", "bounds-redeclared", "composed:service", "composed:accessory"],
         jobs=[
+            dict(test="TestC12Composed", kind="plain", shards={Q: 4, T: 8}),
             dict(test="TestC12Matrix", kind="plain", shards=4),
             dict(test="TestC12Prop", kind="rapid", checks={Q: 1500, T: 60000}, shards=12),
         ],
@@ -140,7 +141,7 @@ PROPS = {
         rule=("matrix: constructors x 14 permission sets x {remote,local} x 3-4 (quick) / 12-13 (thorough) values; rapid: random constructor, random subset of {pr,pw,ev,hd,wr}, optional prior application value, typed or arbitrary JSON value. "
               "Non-trivial: the permission under test is absent (no pr, or no pw on the remote path). Distinct by (constructor, perms, path, values)."),
         assumptions=["a characteristic whose permissions are overridden to exclude read starts without a value"],
-        essential_classes=["missing:pw/remote", "missing:pr/remote", "missing:pr/local", "all-perms/remote", "http:put/missing-pw", "http:get/missing-pr", "http:subscribe/missing-ev", "http:event/missing-ev", "http:event/delivered", "http:event/after-rejected-subscription", "http:event/twin-without-ev"],
+        essential_classes=["missing:pw/remote", "missing:pr/remote", "missing:pr/local", "all-perms/remote", "http:put/missing-pw", "http:get/missing-pr", "http:subscribe/missing-ev", "http:event/missing-ev", "http:event/delivered", "http:event/after-rejected-subscription", "http:event/twin-without-ev", "http:multi/refused-subscription-among-entries", "http:multi/unknown-id-among-entries", "http:event/unreadable-characteristic"],
         jobs=[
             dict(test="TestC11Matrix", kind="plain", shards={Q: 4, T: 8}),
             dict(test="TestC11Prop", kind="rapid", checks={Q: 1000, T: 40000}, shards=8),
@@ -155,7 +156,7 @@ PROPS = {
         level_note="Trusted: the JSON shape checker. Accessories are completed before they are added to a container (as the library's own transport does). The wire-level fetch of /accessories is covered by C09.",
         rule=("rapid compositions; non-trivial: at least 2 accessories and at least 1 extra service. Distinct by composition. Plus one enumerated case per accessory constructor and per service constructor."),
         assumptions=["an accessory is added to exactly one container, after all its services have been added"],
-        essential_classes=["ids:mixed", "ids:explicit", "ids:auto", "explicit-id-collision", "linked-services", "accessories>=20", "every-accessory-constructor", "every-service-constructor", "service-without-characteristics", "custom-service", "remove-accessory"],
+        essential_classes=["ids:mixed", "ids:explicit", "ids:auto", "explicit-id-collision", "linked-services", "accessories>=20", "every-accessory-constructor", "every-service-constructor", "service-without-characteristics", "custom-service", "remove-accessory", "extended-after-publication"],
         jobs=[
             dict(test="TestC14EveryConstructor", kind="plain"),
             dict(test="TestC14Prop", kind="rapid", checks={Q: 300, T: 10000}, shards=16),
